@@ -173,8 +173,10 @@ def _run_reference_implementation(
     except Exception as e:
         # Give up on value propagation if an implementation is missing.
         logging.debug(
-            f"Value propagation in {model} on the ONNX reference implementation failed with - "
-            f"{type(e).__name__}: {e}"
+            "Value propagation in %s on the ONNX reference implementation failed with - %s: %s",
+            model,
+            type(e).__name__,
+            e,
         )
         return {}
     return output_feed
@@ -194,8 +196,10 @@ def _run_onnxruntime(
         output_feed = dict(zip(output_names, session.run(None, input_feed)))
     except Exception as e:
         logging.debug(
-            f"Value propagation in {model} on the onnxruntime failed with - "
-            f"{type(e).__name__}: {e}"
+            "Value propagation in %s on the onnxruntime failed with - %s: %s",
+            model,
+            type(e).__name__,
+            e,
         )
         return {}
     return output_feed
